@@ -6,3 +6,7 @@ package registry
 // Types maps a kmsg type name to a constructor returning a pointer to a value with
 // Default() applied.
 var Types map[string]func() any
+
+// Structs lists every exported struct type declared in pkg/kmsg's generated.go, api.go
+// and record.go (with or without a codec).
+var Structs []string
